@@ -49,6 +49,57 @@ def check(ck):
     from . import helpers as H
     ck.rule('R08.12', 'deep_merge (used by the merge updater) keeps its recursion skeleton')
     H.deep_merge_shape(ck, 'R08.12')
+    H.recursion_forwards(ck, 'R08.12', [
+        ('inverse_topology', 'library.topology'),
+        ('deep_merge_multi_update', 'library.dict_utils')])
+    r08_13(ck)
+
+
+def r08_13(ck, rule='R08.13'):
+    ck.rule(rule, 'every port update is routed, whatever its value: in '
+            'inverse_topology each path through the branch of a port that '
+            'the update names reaches a call that writes it into the '
+            'root-relative update (recursive call, update_in, assoc_path) '
+            'before the next port - no value (empty, falsy) is skipped, the '
+            'updater decides what an update means')
+    f = ck.fn('inverse_topology', 'library.topology')
+    cfg = cfg_of(f.node)
+    ps = A.params_of(f.node)
+    upd, topo = ps[1], ps[2]
+    loops = [l for l in A.walk_no_nested(f.node) if isinstance(l, ast.For)
+             and topo in A.names_in(l.iter)]
+    ck.require(bool(loops), rule, f, f.node.name,
+               'inverse_topology visits the topology entries', None)
+    if not loops:
+        return
+    lp = loops[0]
+    key = A.unparse(lp.target.elts[0]) if isinstance(
+        lp.target, ast.Tuple) else A.unparse(lp.target)
+    route = {cfg.node(c) for c in A.calls_in(lp, (
+        'inverse_topology', 'update_in', 'assoc_path'))}
+    route |= {cfg.node(s2) for s2 in A.walk_no_nested(lp)
+              if isinstance(s2, ast.Raise)}
+    route.discard(None)
+    hdr = cfg.loops[id(lp)]['header']
+    n = 0
+    for test in A.walk_no_nested(lp):
+        if not isinstance(test, ast.If):
+            continue
+        atoms = A.cond_atoms(test.test, True)
+        if ('in', key, upd) not in atoms:
+            continue
+        n += 1
+        src = cfg.node(test.body[0])
+        ok = src is not None and (src in route or cfg.must_pass(
+            src, hdr, route))
+        ck.require(ok, rule, f, test,
+                   'a port named in the update is always routed',
+                   'some path through the branch of a port that the update '
+                   'names writes nothing into the root-relative update: the '
+                   'update for that port is dropped depending on its value '
+                   '(an empty dictionary for a set-like variable is a legal '
+                   'update)', test)
+    ck.floor(rule, n, 1, 'port branches of inverse_topology')
 
 
 def registrations(ck, registry):
